@@ -77,8 +77,7 @@ theorem quiet_probeDone (c : Cfg) (x : Th) (d : Nat) : quiet (probeDone c x d).p
   unfold probeDone retWith; repeat' split
   all_goals rfl
 theorem quiet_pollEntry (x : Th) : quiet (pollEntry x).pc = true := by
-  unfold pollEntry retWith; repeat' split
-  all_goals rfl
+  unfold pollEntry; split <;> rfl
 theorem quiet_pubDone (x : Th) : quiet (pubDone x).pc = true := by unfold pubDone; split <;> rfl
 theorem quiet_callTh (c : Cfg) (s : State) (x x0 : Th) (op : Op) : quiet (callTh c s x x0 op).pc = true := by
   cases op <;> simp only [callTh, retWith, deqCall] <;> (repeat' split) <;> rfl
